@@ -13,6 +13,7 @@ def run(ctx):
     hs = [H('VerifC12Set', 'pkg/northbound/gnmi/v2', f, unwind=12, opts={'params': params}),
           H('VerifC12Subscribe', 'pkg/northbound/gnmi/v2', f, unwind=10, opts={'params': params, 'cuts': {'github.com/openconfig/gnmi/path.ToStrings': 'noop'}})]
     hs.append(H('VerifC12Get', 'pkg/northbound/gnmi/v2', f, unwind=12, opts={'params': params}))
+    hs.append(H('VerifC12Admin', 'pkg/northbound/admin', {'pkg/northbound/admin/zz_verif_c12_admin.go': 'c12/zz_verif_c12_admin.go'}, unwind=12, opts={'params': params}))
     if ctx.only:
         hs = [h for h in hs if h.entry in ctx.only]
     driver.check_harnesses(ctx, hs)
